@@ -110,3 +110,15 @@ pub fn c11_all_none() {
         Err(e) => { std::mem::forget(e); assert!(false); }
     }
 }
+
+/// `into_single_ref`: Ok exactly for one individual, and then a reference to that individual (the helper contract the Verus
+/// unit C11/verus/simple_selections assumes for CloneSingle)
+/// @verif anchor=IntoSingleRef::into_single_ref bound="population sizes 0, 1, 2"
+#[cfg_attr(kani, kani::proof)] #[cfg_attr(kani, kani::unwind(6))]
+pub fn c11_into_single_ref() {
+    use crate::population::IntoSingleRef;
+    let pop = sym_population(2);
+    match pop[..0].into_single_ref() { Ok(_) => assert!(false, "an empty population has no single individual"), Err(e) => std::mem::forget(e) }
+    match pop[..1].into_single_ref() { Ok(s) => assert!(std::ptr::eq(s, &pop[0]), "the single individual itself must be returned"), Err(e) => { std::mem::forget(e); assert!(false, "exactly one individual must be accepted") } }
+    match pop[..2].into_single_ref() { Ok(_) => assert!(false, "two individuals are not a single one"), Err(e) => std::mem::forget(e) }
+}
